@@ -26,6 +26,10 @@ RULE = (
     "Either the round trip reproduces ids, state points, documents and file trees exactly, or a call raised and "
     "no job data had been copied. Non-trivial and distinct = distinct (family, target, path, schema) cases with >= 2 jobs."
 )
+RULE += (
+    " " + "Added later: table-driven callable schemas built from the export mapping; a family holding the empty state point; import origins spelt with '/./' or a trailing separator, beside the importing project under an extending name, or inside it; payload names beyond Latin-1 / sorting before '/' / dot-directories; tar archives exported to twice."
+    " In every third case DEBUG logging is effective for the package."
+)
 ASSUMPTIONS = [
     "tempfile.tempdir is pointed at a monitored scratch directory for the duration of a case.",
     "Schema strings are only demanded to parse word-like strings, integers, plain decimals and booleans.",
